@@ -34,7 +34,7 @@ import (
 )
 
 func TestMain(m *testing.M) {
-	vh.Rule("grid: {0..3}.{0..3}.{0..3} x pre-release {none,-alpha,-beta,-rc.1,-rc.2,-rc.10} (numeric identifiers of different digit counts order numerically) x build {none,+b1} = 2304 strings. " +
+	vh.Rule("grid: {0..3}.{0..3}.{0..3} x pre-release {none,-alpha,-beta,-rc.1,-rc.2,-rc.10,-Beta,-RC.1} (numeric identifiers of different digit counts order numerically, upper case before lower case) x build {none,+b1} = 3072 strings. " +
 		"EXHAUSTIVE: (a) every single range (lower, upper in release-only grid or empty, 65x65) x every release-only version (64), default comparer, incl. all inverted and zero-width ranges; " +
 		"(b) the same over a pre-release/build sub-grid (4 cores quick, 8 thorough x 6 x 2); (c) single ranges over integers 0..15 + junk with the custom integer comparer; " +
 		"(d) every pair of ranges over 5 bounds + empty + junk x 8 versions (default comparer, nil and explicit), every triple of ranges and every pair of capabilities with 0..2 ranges over small integer bound sets; " +
@@ -44,7 +44,7 @@ func TestMain(m *testing.M) {
 		"Non-trivial: the version is precedence-equal to a bound of some range, or lies in a gap between two ranges of one capability (in none, one ends at or below it, one starts above it); distinct by (comparer, capabilities, version)")
 	vh.Assume("own semver parser/precedence (numeric core fields, pre-release < release, identifiers numeric<alphanumeric, numeric numerically, alphanumeric in ASCII order, shorter prefix lower, build ignored) is the reference. " +
 		"hashicorp/go-version v1.7.0 (the default comparer) deviates from semver for other shapes, which are therefore NOT generated: a pre-release that is a dotted prefix of the other one followed by an alphanumeric identifier (go-version: alpha > alpha.beta), " +
-		"fewer/more than three core segments (padded/jagged comparison), 'v' prefix, leading zeros, pre-release without dash (1.0.0rc1), '~' and trailing '-' identifiers. On the generated shapes (identifiers alpha, beta, rc.1, rc.2, rc.10) the two agree by documentation; TestComparerAgreesWithOracleOnGrid re-checks it. " +
+		"fewer/more than three core segments (padded/jagged comparison), 'v' prefix, leading zeros, pre-release without dash (1.0.0rc1), '~' and trailing '-' identifiers. On the generated shapes (identifiers alpha, beta, rc.1, rc.2, rc.10, Beta, RC.1) the two agree by documentation; TestComparerAgreesWithOracleOnGrid re-checks it. " +
 		"Unparsable strings are a fixed junk list rejected by both the oracle parser and the comparer (TestJunkIsRejected). The custom integer comparer is strconv.Atoi based and trusted. " +
 		"A range with neither bound set counts as 'no range' (never contains anything, needs no comparison, is not malformed): intended behaviour of the package (comment in versionRange.go contains, pinned by its unit test TestVersionRange_contains/'no bound set'); the statement's 'a missing bound is unbounded' is applied to ranges with exactly one missing bound. The shape is generated everywhere and labelled range-without-bounds")
 	vh.Main(m, "C19")
@@ -857,7 +857,8 @@ func record(c Case, e expectation, o outcome) {
 // ---------------------------------------------------------------------------------------
 // grid
 
-var gridPre = []string{"", "-alpha", "-beta", "-rc.1", "-rc.2", "-rc.10"}
+// (upper-case identifiers sort before lower-case ones: ASCII order)
+var gridPre = []string{"", "-alpha", "-beta", "-rc.1", "-rc.2", "-rc.10", "-Beta", "-RC.1"}
 var gridBuild = []string{"", "+b1"}
 
 func gv(maj, min, pat, pre, build int) string {
